@@ -798,6 +798,26 @@ def decide(pid, tier, seed):
     for u in v.get("undecided", []):
         undecided.append("verus: " + u)
 
+    # thorough: run the public-API witness of every recorded finding that was hit, to show the defect on the real
+    # code (only against /repo itself: the witness crate depends on it by path)
+    witness_runs = None
+    if tier == "thorough" and known_hit and not SCRATCH:
+        witness_runs = []
+        seen_w = set()
+        for f, _n in known_hit:
+            for w in re.findall(r"/verif/witness/src/bin/(\w+)\.rs", f["what"]):
+                if w in seen_w:
+                    continue
+                seen_w.add(w)
+                try:
+                    p_ = subprocess.run(["cargo", "run", "--offline", "-q", "--bin", w], cwd=os.path.join(VERIF, "witness"),
+                                        env=dict(os.environ, CARGO_NET_OFFLINE="true", CARGO_TARGET_DIR=os.path.join(WORK, "witness-target")),
+                                        stdout=subprocess.PIPE, stderr=subprocess.STDOUT, text=True, timeout=900)
+                    tail = [l for l in p_.stdout.strip().split("\n") if not l.startswith("warning")][-4:]
+                    witness_runs.append({"finding": f["obligation"], "witness": w, "exit": p_.returncode, "shows_the_defect": p_.returncode != 0, "output": tail})
+                except Exception as ex_:  # noqa: BLE001
+                    witness_runs.append({"finding": f["obligation"], "witness": w, "error": str(ex_)[:200]})
+
     # ---- report
     rc = 0
     printed = set()
@@ -874,6 +894,7 @@ def decide(pid, tier, seed):
             "bounded_note": "bounded obligations are listed with their bound and are NOT counted in obligations/discharged",
             "functions_under_contract": assumptions.functions_under_contract(pid, names, reg, REPO),
             "known_findings_hit": [f["obligation"] for f, _ in known_hit],
+            "known_findings_witnesses_run": witness_runs,
             "obligations_left_to_their_own_property": reported_elsewhere,
             "undecided": undecided,
             "uncovered_clauses": assumptions.UNCOVERED.get(pid, []),
